@@ -196,11 +196,6 @@ package js_ast
 // R(e) below is the classifier itself, used as a deterministic function of the (unchanged) AST:
 // the contract says R is closed downwards, so no operand position can be skipped.
 // Leaf classifications delegated to other helpers are uninterpreted here (trusted, `ensures true`).
-//@ func KnownPrimitiveType
-//@   trusted
-//@   opt heappure
-//@   modifies nothing
-//@   ensures true
 //@ func CanChangeStrictToLoose
 //@   trusted
 //@   opt heappure
@@ -367,3 +362,45 @@ package js_ast
 //@   ensures commonjs-is-dynamic: kind == ExportsCommonJS ==> result
 //@   ensures esm-with-fallback-is-dynamic: kind == ExportsESMWithDynamicFallback ==> result
 //@   ensures static-kinds-are-not: kind == ExportsNone || kind == ExportsESM ==> !result
+
+// ----------------------------------------------------------------------------------------------
+// C04 / C03: KnownPrimitiveType(e) = T claims "e always evaluates to a primitive of type T" (Mixed = some
+// primitive). Template folding, `<` on primitives and the purity classifier all rely on it to rule out
+// ToString/valueOf calls. For the operators whose VALUE is one of their operands' values the claim must be
+// inherited from the operands that can be selected (ECMA-262 13.13 binary logical operators, 13.14
+// conditional, 13.15 assignment, 13.16 comma):  a ?? b yields b whenever a is null/undefined, so if a may be
+// nullish (Null, Undefined or Mixed) a known result needs a known b.
+//@ spec func kpt(x Expr) PrimitiveType = KnownPrimitiveType(x.Data)
+//@ spec func mayBeNullish(t PrimitiveType) bool = t == PrimitiveNull || t == PrimitiveUndefined || t == PrimitiveMixed
+
+//@ func MergedKnownPrimitiveTypes
+//@   arith int
+//@   prop C04 C03
+//@   opt heappure
+//@   modifies nothing
+//@   ensures both-known: result != PrimitiveUnknown ==> kpt(a) != PrimitiveUnknown && kpt(b) != PrimitiveUnknown
+//@   ensures specific-means-both: result != PrimitiveUnknown && result != PrimitiveMixed ==> kpt(a) == result && kpt(b) == result
+//@   ensures range: result <= PrimitiveBigInt
+
+//@ func KnownPrimitiveType
+//@   arith int
+//@   prop C04 C03
+//@   opt heappure
+//@   modifies nothing
+//@   ensures range: result <= PrimitiveBigInt
+//@   ensures literals: (is(expr, *ENull) ==> result == PrimitiveNull) && (is(expr, *EUndefined) ==> result == PrimitiveUndefined) &&
+//@       (is(expr, *EBoolean) ==> result == PrimitiveBoolean) && (is(expr, *ENumber) ==> result == PrimitiveNumber) &&
+//@       (is(expr, *EString) ==> result == PrimitiveString) && (is(expr, *EBigInt) ==> result == PrimitiveBigInt)
+//@   ensures wrappers: (is(expr, *EAnnotation) ==> result == kpt(expr.(*EAnnotation).Value)) && (is(expr, *EInlinedEnum) ==> result == kpt(expr.(*EInlinedEnum).Value))
+//@   ensures conditional: is(expr, *EIf) ==> result == MergedKnownPrimitiveTypes(expr.(*EIf).Yes, expr.(*EIf).No)
+//@   ensures logical: is(expr, *EBinary) && (expr.(*EBinary).Op == BinOpLogicalOr || expr.(*EBinary).Op == BinOpLogicalAnd) ==>
+//@       result == MergedKnownPrimitiveTypes(expr.(*EBinary).Left, expr.(*EBinary).Right)
+//@   ensures nullish-left-known: is(expr, *EBinary) && expr.(*EBinary).Op == BinOpNullishCoalescing && result != PrimitiveUnknown ==> kpt(expr.(*EBinary).Left) != PrimitiveUnknown
+//@   ensures nullish-right-known-if-selectable: is(expr, *EBinary) && expr.(*EBinary).Op == BinOpNullishCoalescing && result != PrimitiveUnknown &&
+//@       mayBeNullish(kpt(expr.(*EBinary).Left)) ==> kpt(expr.(*EBinary).Right) != PrimitiveUnknown
+//@   ensures nullish-specific: is(expr, *EBinary) && expr.(*EBinary).Op == BinOpNullishCoalescing && result != PrimitiveUnknown && result != PrimitiveMixed ==>
+//@       (mayBeNullish(kpt(expr.(*EBinary).Left)) ? kpt(expr.(*EBinary).Right) == result : kpt(expr.(*EBinary).Left) == result)
+//@   ensures assign-comma: is(expr, *EBinary) && (expr.(*EBinary).Op == BinOpAssign || expr.(*EBinary).Op == BinOpComma) ==> result == kpt(expr.(*EBinary).Right)
+//@   ensures tagged-template-unknown: is(expr, *ETemplate) && expr.(*ETemplate).TagOrNil.Data != nil ==> result == PrimitiveUnknown
+//@   ensures unknown-kinds: result != PrimitiveUnknown ==> is(expr, *EAnnotation) || is(expr, *EInlinedEnum) || is(expr, *ENull) || is(expr, *EUndefined) ||
+//@       is(expr, *EBoolean) || is(expr, *ENumber) || is(expr, *EString) || is(expr, *EBigInt) || is(expr, *ETemplate) || is(expr, *EIf) || is(expr, *EUnary) || is(expr, *EBinary)
